@@ -167,7 +167,13 @@ def gen_together(r, ncases, parallel):
         n = r.range(2, 4)
         ids = [f"t{i}" for i in range(n)]
         quants = r.shuffle([0, 2, 4, 8, 16, 32])[:n]
+        # mixed fan kinds: in a third of the cases one of the fans is a FILE fan (its PWM is readable, so it really sweeps): its
+        # sweep takes turns with the hwmon fans' analyses like any other (seed C16l: one lock per fan kind)
+        filefan = ids[r.below(n)] if r.chance(0.35) else None
         for fid, q in zip(ids, quants):
+            if fid == filefan:
+                ops.append(_fan_line(fid, "file", False, False, r.chance(0.5), False, r.pick([0, 2, 8]), r.range(5, 90)))
+                continue
             # some fans take long to settle (the RPM keeps moving for dozens of polls after a PWM change): their analysis is
             # long, and the others still have to wait for it (seed C16e: a time-out released the lock, not the fan)
             drift = r.pick([0, 0, 0, 30, 45]) if q >= 8 else 0
